@@ -217,6 +217,10 @@ class Interp:
             return True
         if isinstance(v, Missing):
             raise OutOfReach(f"use of unmodelled name {v.name}")
+        if isinstance(v, dict) and "__pyvc_symbolic_part__" in v:
+            if len(v) > 1:
+                return True
+            return z3.Not(v["__pyvc_symbolic_part__"].is_empty())
         if callable(v) and not isinstance(v, type):
             return True
         return bool(v)
@@ -234,6 +238,10 @@ class Interp:
         if isinstance(b, SV) and b.none is not None:
             b = self.split_none(b)
         if a is None or b is None:
+            other = b if a is None else a
+            if other is not None and getattr(self, "obj_may_be_none", False) and isinstance(other, SV) and \
+                    other.t.sort().name() == "Obj":
+                return other.t == z3.Const("const:None", other.t.sort())
             return a is None and b is None
         if isinstance(a, DName) and isinstance(b, DName):
             return a.t == b.t
@@ -532,6 +540,8 @@ class Interp:
                         raise OutOfReach("adjacent parts without dot")
                     expect_item = True
             if expect_item:
+                if len(items) == 1 and items[0][0] == "name":
+                    return NamePrefix(items[0][1])  # f"{name}." : only meaningful as a startswith() argument
                 raise OutOfReach("dotted-name literal ends with a dot")
             if any(s[0] == "name" for s in items):
                 if len(items) == 1:
@@ -701,6 +711,16 @@ class Interp:
     def binop(self, op, a, b):
         a = self.split_none(a)
         b = self.split_none(b)
+        if isinstance(a, SymPySet) and isinstance(b, SymPySet) and isinstance(op, (ast.Sub, ast.BitOr, ast.BitAnd)):
+            if isinstance(op, ast.Sub):
+                return SymPySet([x for x in a if not self.branch_truth(self.wrapb(self.contains(b, x)), "setdiff")])
+            if isinstance(op, ast.BitAnd):
+                return SymPySet([x for x in a if self.branch_truth(self.wrapb(self.contains(b, x)), "setand")])
+            out = SymPySet(a)
+            for x in b:
+                if not self.branch_truth(self.wrapb(self.contains(out, x)), "setor"):
+                    out.append(x)
+            return out
         sym = isinstance(a, (SV, DName, PartV)) or isinstance(b, (SV, DName, PartV))
         if not sym:
             try:
@@ -713,16 +733,6 @@ class Interp:
                 raise OutOfReach(f"binop {type(op).__name__}")
         if isinstance(op, ast.Add) and (self._is_strlike(a) and self._is_strlike(b)):
             return self.concat_str([a, b])
-        if isinstance(a, SymPySet) and isinstance(b, SymPySet) and isinstance(op, (ast.Sub, ast.BitOr, ast.BitAnd)):
-            if isinstance(op, ast.Sub):
-                return SymPySet([x for x in a if not self.branch_truth(self.wrapb(self.contains(b, x)), "setdiff")])
-            if isinstance(op, ast.BitAnd):
-                return SymPySet([x for x in a if self.branch_truth(self.wrapb(self.contains(b, x)), "setand")])
-            out = SymPySet(a)
-            for x in b:
-                if not self.branch_truth(self.wrapb(self.contains(out, x)), "setor"):
-                    out.append(x)
-            return out
         ta, tb = self.num_term(a), self.num_term(b)
         if ta is None or tb is None:
             raise OutOfReach(f"binop {type(op).__name__} on {type(a).__name__},{type(b).__name__}")
@@ -868,6 +878,13 @@ class Interp:
 
 class Unbound:
     pass
+
+
+class NamePrefix:
+    """The string f"{name}." (a dotted name followed by a dot), used as a prefix in startswith()."""
+
+    def __init__(self, t):
+        self.t = t
 
 
 class SymPySet(list):
